@@ -10,6 +10,34 @@ use std::sync::Mutex;
 use std::sync::atomic::{AtomicBool, AtomicU64, Ordering};
 use std::time::{Duration, Instant};
 
+pub static OUT: std::sync::OnceLock<Mutex<std::fs::File>> = std::sync::OnceLock::new();
+
+/// parol prints resolved LALR conflicts with println!; the harness therefore moves the real
+/// stdout to a private descriptor and points fd 1 at /dev/null. All harness output goes through
+/// `outln!`.
+pub fn init_out() {
+    use std::os::fd::FromRawFd;
+    unsafe {
+        let saved = libc::dup(1);
+        let devnull = libc::open(c"/dev/null".as_ptr(), libc::O_WRONLY);
+        libc::dup2(devnull, 1);
+        libc::close(devnull);
+        let _ = OUT.set(Mutex::new(std::fs::File::from_raw_fd(saved)));
+    }
+}
+
+#[macro_export]
+macro_rules! outln {
+    ($($arg:tt)*) => {{
+        use std::io::Write;
+        let s = format!($($arg)*);
+        match $crate::common::OUT.get() {
+            Some(f) => { let mut f = f.lock().unwrap(); let _ = writeln!(f, "{}", s); }
+            None => println!("{}", s),
+        }
+    }};
+}
+
 #[derive(Clone, Copy, PartialEq, Eq, Debug)]
 pub enum Tier {
     Quick,
@@ -245,7 +273,7 @@ pub fn finish(ctx: &Ctx, acc: &Acc, fin: Finish) -> i32 {
         let k = known.iter().find(|k| k.property == ctx.id && k.class == *class && k.status == "known");
         if let Some(k) = k {
             n_known += list.len() as u64;
-            println!(
+            crate::outln!(
                 "KNOWN-FINDING: property={} class={} instances={} first: {} -- {}",
                 ctx.id,
                 class,
@@ -266,8 +294,8 @@ pub fn finish(ctx: &Ctx, acc: &Acc, fin: Finish) -> i32 {
                 "property": ctx.id, "class": v.class, "what": v.what, "case": v.case, "detail": v.detail,
             });
             std::fs::write(&path, serde_json::to_string_pretty(&rec).unwrap()).unwrap();
-            println!("VIOLATION property={} replay={}", ctx.id, path.display());
-            println!("  class={} {}", v.class, v.what);
+            crate::outln!("VIOLATION property={} replay={}", ctx.id, path.display());
+            crate::outln!("  class={} {}", v.class, v.what);
         }
         vio_json.push(json!({"class": class, "known": false, "instances": list.len(), "first": list[0].what, "case": list[0].case}));
     }
@@ -312,7 +340,7 @@ pub fn finish(ctx: &Ctx, acc: &Acc, fin: Finish) -> i32 {
         serde_json::to_string_pretty(&ev).unwrap(),
     )
     .unwrap();
-    println!(
+    crate::outln!(
         "{} tier={} evaluations={} distinct_nontrivial={} outcomes={} violations={} known={} capped={} wall={:.1}s",
         ctx.id,
         ctx.tier.name(),
@@ -355,13 +383,13 @@ pub fn replay_verdict(id: &str, path: &str, f: impl Fn() -> Vec<Violation>) -> i
         return 2;
     }
     if a.is_empty() {
-        println!("REPLAY property={id} holds on {path}");
+        crate::outln!("REPLAY property={id} holds on {path}");
         0
     } else {
         for v in &a {
-            println!("VIOLATION property={id} replay={path}");
-            println!("  class={} {}", v.class, v.what);
-            println!("  detail={}", v.detail);
+            crate::outln!("VIOLATION property={id} replay={path}");
+            crate::outln!("  class={} {}", v.class, v.what);
+            crate::outln!("  detail={}", v.detail);
         }
         1
     }
